@@ -283,6 +283,16 @@ func topLibFrame(st string) string {
 	return m[1] + "." + fn
 }
 
+// LibPanic classifies a panic recovered in a goroutine the monitor started itself (the
+// runner only sees the case's own goroutine): ok reports whether the stack has a gmrtd
+// frame, key is then the same "panic:<pkg.func>" key the runner would have used.
+func LibPanic(stack string) (key string, trimmed string, ok bool) {
+	if !stackHasLibFrame(stack) {
+		return "", "", false
+	}
+	return "panic:" + topLibFrame(stack), trimStack(stack), true
+}
+
 func trimStack(st string) string {
 	lines := strings.Split(st, "\n")
 	if len(lines) > 40 {
